@@ -115,7 +115,7 @@ theorem fits_applymask {α : Type} (r c : Nat) (t : T α) (m : List (List Bool))
       | none => rw [hti, hmi] at hi; simp at hi
       | some mrow =>
         rw [hti, hmi] at hi
-        simp only [Option.map_some, Option.bind_some, Option.some.injEq] at hi
+        simp only [Option.some.injEq] at hi
         subst hi
         rw [List.length_zipWith]
         exact Nat.le_trans (Nat.min_le_left _ _) (h.2 trow (List.mem_of_getElem? hti))
